@@ -156,8 +156,8 @@ theorem Abs.delCache {s : Store} {σ : Spec} (h : Abs s σ) (k : Key) (hk : k.cl
     · simp [e, h.cacheOnly k' hk']
   · exact h.vocab
 
-/-- a key is in the model's scan iff it is in the specification's (a prefix with an end key) -/
-theorem Abs.scan {s : Store} {σ : Spec} (h : Abs s σ) (p : List Nat) (hb : boundedPrefix p = true)
+/-- a key is in the model's scan iff it is in the specification's (any prefix that is a string) -/
+theorem Abs.scan {s : Store} {σ : Spec} (h : Abs s σ) (p : List Nat) (hb : validUtf8 p = true)
     (k : Key) : k ∈ scanNow s p ↔ k ∈ (σ.map (·.1)).filter (pmatch p) := by
   simp only [scanNow, h.vocab, liveKeys, List.filter_nil, List.map_nil, List.append_nil,
     List.mem_append, List.mem_filter, mem_keys_iff, h.get k, mdMatch_eq_pmatch hb]
@@ -168,7 +168,7 @@ theorem Abs.scan {s : Store} {σ : Spec} (h : Abs s σ) (p : List Nat) (hb : bou
 /-! ### one single-step operation = one step of the specification -/
 
 theorem single_step_refines {s : Store} {σ : Spec} (h : Abs s σ) (op : Op) (hs : op.singleStep)
-    (hsb : op.scanBounded = true) :
+    (hsb : op.scanStr = true) :
     ∃ s' r, stepOp s op .start = (s', .done r) ∧ resEquiv r (specRes σ op) ∧
       Abs s' (specApply σ op) := by
   cases op with
@@ -256,12 +256,12 @@ theorem single_step_refines {s : Store} {σ : Spec} (h : Abs s σ) (op : Op) (hs
 structure Inv (sys : Sys) : Prop where
   abs : Abs sys.store (specRun [] (sys.hist.map (·.op)))
   strict : SeqStrict [] sys.hist
-  threads : ∀ th ∈ sys.threads, th.pc = .start ∧ ∀ op ∈ th.ops, op.singleStep ∧ op.scanBounded = true
+  threads : ∀ th ∈ sys.threads, th.pc = .start ∧ ∀ op ∈ th.ops, op.singleStep ∧ op.scanStr = true
   times : ∀ r ∈ sys.hist, r.inv = r.ret ∧ r.ret < sys.clock
   sorted : sys.hist.Pairwise (fun a b => a.ret < b.inv)
 
 theorem Inv.init (w : Bool) (progs : List ThreadProgram)
-    (h : ∀ p ∈ progs, ∀ op ∈ p, op.singleStep ∧ op.scanBounded = true) : Inv (initSys w progs) := by
+    (h : ∀ p ∈ progs, ∀ op ∈ p, op.singleStep ∧ op.scanStr = true) : Inv (initSys w progs) := by
   constructor
   · exact Abs.init w
   · trivial
